@@ -14,7 +14,8 @@ META = dict(
            "maximal dissipation (friction percussion antiparallel to the slip with magnitude mu P_N).  DualStormerVerlet: the real _step (LU variant) with its fixed-point helpers replaced by a stub returning an arbitrary iterate z whose percussions are a fixed point of the projection closure, "
            "point mass on a plane: Signorini with the restituted gap rate at the midpoint, Coulomb.  Moreau.step (real method, LU stub) on two point masses in sphere-sphere contact: xi_N0, xi_F0, W_N are the restituted "
            "gap rate / slip velocity / force direction at the step's midpoint configuration.  Outside: that the fixed-point loops reach a fixed "
-           "point within tolerance; penetration 'beyond solver tolerance'; the kinetic-energy clause.",
+           "point within tolerance; penetration 'beyond solver tolerance'; the kinetic-energy clause (a degree-4 inequality over the sqrt-normalised contact normal: the "
+           "attempt did not decide within 15 minutes; its necessary ingredient, the restituted gap rate on the midpoint kinematics, is the Moreau.step clause above).",
     assumptions=["dt > 0, prox parameters > 0, mu > 0", "fixed-point hypothesis for the complementarity clauses"],
     trusted_base=[],
 )
